@@ -7,6 +7,9 @@
 //	    no double spends, inputs spendable, SpentOutputs = inverse of the inputs, nothing pooled confirmed,
 //	    Fee/Volume/sizes/totals exact, MempoolCheck() clean, GetSortedMempoolRBF() a parents-first permutation,
 //	    and the block assembled from it accepted by CheckBlock + ProcessBlockTransactions (scripts verified).
+//
+// (a) and (b) are also done inside block commits, at the points where another thread of the node can take TxMutex
+// (world.go chainEvent), and after a restart on a damaged mempool.dmp (crashload.go).
 package main
 
 import (
@@ -914,7 +917,12 @@ func scRandomSteps(w *World, steps int, withBig bool, final bool) {
 				}
 				w.tickExpire(old)
 			case x < 98:
-				w.reload()
+				if w.g.Chance(2, 5) { // the node restarts on a pool file that is not the complete file of its tip
+					kinds := []string{"cut", "cut", "cut", "cut", "marker", "stale", "version", "tip", "missing"}
+					w.crashLoad(kinds[w.g.Intn(len(kinds))])
+				} else {
+					w.reload()
+				}
 			default:
 				if withBig {
 					if len(conf) > 14 {
@@ -978,6 +986,7 @@ func scenarios(r *vlib.Run) []scenario {
 		{"corpus:witness-twins", scWitnessTwins, false},
 		{"corpus:dirty-list", scDirtyList, false},
 		{"corpus:reorg-stepwise", scReorgStepwise, false},
+		{"corpus:crash-load", scCrashLoad, false},
 	}
 	l = append(l,
 		// 43 arrivals directly below the head of a freshly built list: the rank gap there goes 2^42.4 … 3, 2, 1
@@ -1044,6 +1053,8 @@ func main() {
 		"amounts stay far below 2^64 (no uint64 wrap in fee products); size-based limits of the rejected list are kept out of reach",
 		"transactions from trusted peers / the local wallet (Trusted: scripts are not run) carry valid scripts; corrupted signatures are only sent on the untrusted path",
 		"blocks handed to the chain are valid; the harness applies client/main.go's wiring (callbacks, BlockCommitInProgress, common.Last) itself; a bare undo is driven as client/usif/textui undo_block does",
+		"other threads of the node are represented by what they do under TxMutex at the points where the committing thread has released it: a listing (GetSortedMempoolRBF) + inspection right after a BlockMined / BlockUndone callback, SortingDisabled still set; true parallel execution is not driven (TxMutex serialises the pool)",
+		"a damaged mempool.dmp is a strict prefix of the file MempoolSave wrote (crash while writing in place), that file with its END marker / version / tip hash changed, a complete file of an earlier tip, or no file; bit flips INSIDE the records are not generated (the file has no checksum: such a file loads other transactions)",
 		"Go map-iteration order (batch of REPLACED records in the reject ring; ties of sort.Slice) is an input: the model adopts the observed order through ringorder / setorder, which are proved to preserve the invariants (resync_step_inv)",
 		"several serializations of one txid (witness-malleated twins) are outside the theorems' id_fun: the model is told the serialization in use before every operation and every divergence is reported, the property predicate is judged on the real pool",
 	}
@@ -1086,6 +1097,6 @@ func finish(r *vlib.Run) {
 	profPrint()
 	os.Stdout = realOut
 	syscall.Dup2(int(realErr.Fd()), 2)
-	r.Finish("one case = the real pool state after one operation of a history (submit net/trusted/local, block, reorg, expiry tick, eviction tick, save+reload); distinct = different (pool, rejected) dumps; each compared with the Lean model and checked against the property predicate incl. a block template validated by the node",
-		"Real client/txpool driven in-process on a chainkit chain with the client's own wiring; after every operation the full observable state (TransactionsToSend with Fee/Volume/MemInputs/Final/Local, SpentOutputs, reject ring, WaitingForInputs, RejectedSpentOutputs, sorted list, totals) is compared with Model/Mempool.lean, gocoin's FeePackages are validated by the model (pkgOK) and its merge of the sorted list with them is compared element by element with GetSortedMempoolRBF(), and C12's predicate is evaluated directly on the real pool: no double spend, every input confirmed-unspent or pooled, SpentOutputs exact, nothing pooled confirmed, Fee = in - out, sizes from the raw bytes, MempoolCheck(), GetSortedMempoolRBF() and GetSortedMempool() parents-first permutations of the pool, block built from the former accepted by CheckBlock + ProcessBlockTransactions with scripts verified.")
+	r.Finish("one case = the real pool state after one operation of a history (submit net/trusted/local, block, reorg, expiry tick, eviction tick, save+reload, restart on a damaged pool file) or inside a block commit right after the chain has reported one block to the pool; distinct = different (pool, rejected) dumps; each compared with the Lean model and checked against the property predicate incl. a block template validated by the node",
+		"Real client/txpool driven in-process on a chainkit chain with the client's own wiring; after every operation the full observable state (TransactionsToSend with Fee/Volume/MemInputs/Final/Local, SpentOutputs, reject ring, WaitingForInputs, RejectedSpentOutputs, sorted list, totals) is compared with Model/Mempool.lean, gocoin's FeePackages are validated by the model (pkgOK) and its merge of the sorted list with them is compared element by element with GetSortedMempoolRBF(), and C12's predicate is evaluated directly on the real pool: no double spend, every input confirmed-unspent or pooled, SpentOutputs exact, nothing pooled confirmed, Fee = in - out, sizes from the raw bytes, MempoolCheck(), GetSortedMempoolRBF() and GetSortedMempool() parents-first permutations of the pool, block built from the former accepted by CheckBlock + ProcessBlockTransactions with scripts verified. The same is done INSIDE block commits (after each BlockMined / BlockUndone callback of a connect, an undo and every step of a reorganisation, while SortingDisabled is set: the listing another thread would get there), and MempoolLoad is run on damaged variants of every file MempoolSave writes (cut at any byte, marker / version / tip changed, stale, missing): each must be refused and leave the pool as InitMempool() makes it; the history continues from there (model: loadRefused).")
 }
